@@ -591,6 +591,72 @@ def run(sync):
 ''', [("run", [(True,), (False,)])])
 
 
+# ---- exception-aware __exit__; awaited expression-bodied async helper
+case('''
+import asyncio
+
+LOG = []
+
+class Closed(Exception):
+    pass
+
+class Failure(Exception):
+    pass
+
+class _ClosedAsFailure:
+    def __enter__(self):
+        return self
+    def __exit__(self, exc_type, exc, tb):
+        if exc_type is None:
+            return False
+        if issubclass(exc_type, Closed):
+            LOG.append("closed")
+            raise Failure()
+        return False
+
+class _Quiet:
+    def __init__(self, kinds):
+        self.kinds = kinds
+    def __enter__(self):
+        return None
+    def __exit__(self, exc_type, exc, tb):
+        if exc_type is not None and issubclass(exc_type, self.kinds):
+            LOG.append("swallowed " + type(exc).__name__)
+            return True
+        return False
+
+class Conn:
+    def __init__(self, script):
+        self.script = list(script)
+    async def recv(self):
+        x = self.script.pop(0)
+        if x == "closed":
+            raise Closed()
+        if x == "boom":
+            raise ValueError("boom")
+        return x
+    async def _decoded(self):
+        return ("msg", await self.recv())
+    async def listen(self):
+        with _ClosedAsFailure():
+            m = await self._decoded()
+            LOG.append(m)
+        with _Quiet((ValueError, KeyError)):
+            n = await self._decoded()
+            LOG.append(n)
+            return "returned inside"
+        return "after"
+
+def run(script):
+    LOG.clear()
+    try:
+        r = asyncio.run(Conn(script).listen())
+    except Exception as e:
+        r = "raised " + type(e).__name__ + " ctx " + type(e.__context__).__name__
+    return r, list(LOG)
+''', [("run", [(["a", "b"],), (["closed"],), (["boom"],), (["a", "boom"],), (["a", "closed"],)])])
+
+
 def outcome(ns, fn, args):
     import copy
     try:
